@@ -611,7 +611,7 @@ def run_miri(ctx, emit, bins):
                 procs.append((out, log, cmd, subprocess.Popen(cmd, cwd=os.path.join(ctx.root, HARNESS_DIR), env=env, stdout=log, stderr=subprocess.STDOUT)))
     for out, log, cmd, p in procs:
         try:
-            rc = p.wait(timeout=5400)
+            rc = p.wait(timeout=4 * 3600)
         except subprocess.TimeoutExpired:
             p.kill()
             result["inconclusive"].append("Miri watchdog fired")
